@@ -1,17 +1,19 @@
 """C17 bounded native leg: glue call log vs history.  Histories = all sequences of length <= 4 (thorough 5) over
-{add m, remove m, extract} on three fake modules (module glue / built-in glue / both / raising glue), each followed by a final
+{add m, remove m, fresh m (= a NEW module object carrying its own glue function is put under that name, present or not:
+re-insertion / reload), extract} on three fake modules (module glue / built-in glue / both / raising glue), each followed by a final
 extract; contract after every extract: for every module currently in sys.modules its glue (module-provided if it has one,
 else built-in) has run exactly once so far, never both kinds, never twice; a raising glue gives one warning, the rest is
 still installed.  Plus a two-thread schedule: a second extraction that starts while the first is installing glue returns
 only after the glue has run.  Violations at an extraction where len(sys.modules) equals its value at the previous
-extraction although the set changed are keyed 'same-cardinality-change' (known finding F4)."""
+extraction although the contents changed (another name, or a new module object under an old name) are keyed
+'same-cardinality-change' (known finding F4)."""
 import sys, os, types, itertools, threading, time, warnings
 sys.path.insert(0, os.path.dirname(__file__))
 from _leg import Leg, THOROUGH
 import stackscope
 from stackscope import _glue
 
-leg = Leg("c17_history", "all op sequences of length<=%d over {add,remove} x 3 fake modules + extract; 4 module kinds; "
+leg = Leg("c17_history", "all op sequences of length<=%d over {add,remove} x 3 fake modules + {fresh object under an old name} x 2 + extract; 4 module kinds; "
                          "non-trivial = history with >=1 add before an extract" % (5 if THOROUGH else 4))
 
 
@@ -20,7 +22,9 @@ def gen():
 
 
 G = gen(); next(G)
-LOG = []
+LOG = []          # (module name, kind, generation of the module object whose glue ran)
+GEN = {}
+KEEP = []        # every module object ever made stays alive, so that id() identifies it for the whole history
 KINDS = {"zz_m": "module", "zz_b": "builtin", "zz_x": "both"}
 MODS = {}
 
@@ -30,19 +34,33 @@ def fresh_world():
         sys.modules.pop(n, None)
         _glue.builtin_glue_pending.pop(n, None)
     del LOG[:]
+    del KEEP[:-8]
     MODS.clear()
+    GEN.clear()
     for n, k in list(KINDS.items()) + [("zz_r", "raising")]:
+        GEN[n] = 0
         m = types.ModuleType(n)
         if k in ("module", "both"):
-            m._stackscope_install_glue_ = (lambda n=n: LOG.append((n, "module")))
+            m._stackscope_install_glue_ = (lambda n=n: LOG.append((n, "module", 0)))
         if k == "raising":
             def boom(n=n):
-                LOG.append((n, "module")); raise ValueError("glue failed")
+                LOG.append((n, "module", 0)); raise ValueError("glue failed")
             m._stackscope_install_glue_ = boom
         if k in ("builtin", "both"):
-            _glue.builtin_glue(n)(lambda n=n: LOG.append((n, "builtin")))
+            _glue.builtin_glue(n)(lambda n=n: LOG.append((n, "builtin", GEN[n])))
         MODS[n] = m
+        KEEP.append(m)
     stackscope.extract(G)      # settle: everything imported so far is scanned
+
+
+def fresh_module(n):
+    """a new module object under an old name, with its own module glue (what a reload / re-import produces)"""
+    GEN[n] += 1
+    m = types.ModuleType(n)
+    m._stackscope_install_glue_ = (lambda n=n, g=GEN[n]: LOG.append((n, "module", g)))
+    MODS[n] = m
+    KEEP.append(m)
+    return m
 
 
 def expected_kind(n):
@@ -55,13 +73,15 @@ ENTRY = {"extract": lambda: stackscope.extract(G), "extract_outermost": lambda: 
 
 def run_history(ops, entry="extract"):
     fresh_world()
-    prev_len = len(sys.modules); prev_set = set(sys.modules)
+    prev_len = len(sys.modules); prev_set = {k: id(v) for k, v in sys.modules.items()}
     ever_present_at_extract = set()
     for step, op in enumerate(list(ops) + [("extract",)]):
         if op[0] == "add":
             sys.modules[op[1]] = MODS[op[1]]
         elif op[0] == "remove":
             sys.modules.pop(op[1], None)
+        elif op[0] == "fresh":
+            sys.modules[op[1]] = fresh_module(op[1])
         else:
             with warnings.catch_warnings(record=True) as w:
                 warnings.simplefilter("always")
@@ -69,14 +89,19 @@ def run_history(ops, entry="extract"):
                     ENTRY[entry]()
                 except BaseException as e:
                     return ("extraction-raised" + ("" if entry == "extract" else ":" + entry), f"after {ops[:step]} {entry} raised {e!r}")
-            same_card = len(sys.modules) == prev_len and set(sys.modules) != prev_set
-            prev_len = len(sys.modules); prev_set = set(sys.modules)
+            now_set = {k: id(v) for k, v in sys.modules.items()}
+            # the count is what it was at the previous extraction although the contents changed (another name, or another
+            # module OBJECT under an old name): the len() fast path cannot see it - known finding F4
+            same_card = len(sys.modules) == prev_len and now_set != prev_set
+            prev_len = len(sys.modules); prev_set = now_set
             for n in MODS:
-                runs = [k for (m, k) in LOG if m == n]
+                allruns = [(k, g) for (m, k, g) in LOG if m == n]
                 if n in sys.modules:
                     ever_present_at_extract.add(n)
-                if len(runs) > 1:
-                    return ("twice-or-both", f"glue of {n} ran {runs}")
+                if len(set(allruns)) != len(allruns) or len({k for k, g in allruns}) > 1:
+                    return ("twice-or-both", f"glue of {n} ran {allruns} (kind, module generation): one object's glue twice, or both kinds")
+                # the module object now under that name: its own glue if it has (had) one, else the built-in glue of the name
+                runs = [k for (k, g) in allruns if g == GEN[n] or k == "builtin"]
                 if n in sys.modules and runs != [expected_kind(n)]:
                     return ("same-cardinality-change" if same_card else "not-installed-in-time" + ("" if entry == "extract" else ":" + entry),
                             f"after {ops[:step]} {entry}: glue of {n} ran {runs}, expected [{expected_kind(n)!r}]")
@@ -86,12 +111,12 @@ def run_history(ops, entry="extract"):
 
 
 names = list(KINDS) + ["zz_r"]
-alphabet = [("add", n) for n in names[:3]] + [("remove", n) for n in names[:3]] + [("extract",)]
+alphabet = [("add", n) for n in names[:3]] + [("remove", n) for n in names[:3]] + [("fresh", "zz_m"), ("fresh", "zz_x")] + [("extract",)]
 maxlen = 5 if THOROUGH else 4
 seen_known = False
 for L in range(1, maxlen + 1):
     for ops in itertools.product(alphabet, repeat=L):
-        nontrivial = any(o[0] == "add" for o in ops)
+        nontrivial = any(o[0] in ("add", "fresh") for o in ops)
         leg.case(ops, nontrivial, sample=[list(o) for o in ops] if L == 3 and len(leg.samples) < 3 and nontrivial else None)
         r = run_history(ops)
         if r:
@@ -120,7 +145,7 @@ with warnings.catch_warnings(record=True) as w:
         st = None; raised = e
 leg.case("raising-glue", True)
 rw = [x for x in w if issubclass(x.category, RuntimeWarning) and "zz_r" in str(x.message)]
-if raised is not None or len(rw) != 1 or ("zz_m", "module") not in LOG or st.error is not None:
+if raised is not None or len(rw) != 1 or ("zz_m", "module", 0) not in LOG or st.error is not None:
     leg.violation("raising-glue", f"a glue function that raises must cost one warning and nothing else: raised={raised!r} warnings={len(rw)} log={LOG} "
                                   f"error={getattr(st, 'error', None)!r}")
 # two threads: B starts extracting while A is inside a (slow) glue function
